@@ -222,8 +222,8 @@ def v4_engine(run):
               "raise iff len - max > 0", "no raise with normal form "
               "len - max > 0 (too many occurrences are accepted)", fi.loc())
     emp = [r for r in cfg.by_kind("raise")
-           if facts(cfg, r.id) ==
-           {Q("value", False), Q("_cmin", True)}]
+           if {Q("value", False), Q("_cmin", True)} <= facts(cfg, r.id) and
+           len(facts(cfg, r.id, inline=False)) == 2]
     run.check(len(emp) == 1, "V4", fi.qual + "::absent-with-min=>raise",
               "an absent child with a positive minimum raises",
               "absent required children are accepted", fi.loc())
